@@ -468,6 +468,11 @@ func init() {
 							if pv := f.varOf(f.deref(src.expr)); pv == pathParam || f.varOf(src.expr) == pathParam {
 								continue
 							}
+							if tp := f.isCall(src.expr, "strings.TrimPrefix"); tp != nil && (f.varOf(f.deref(tp.Args[0])) == pathParam || f.varOf(tp.Args[0]) == pathParam) {
+								if tv, ok := f.Info.Types[tp.Args[1]]; ok && tv.Value != nil {
+									continue // a leading constant prefix cut off (which one: the decision table below)
+								}
+							}
 							se, ok := ast.Unparen(src.expr).(*ast.SliceExpr)
 							if ok && se.High == nil && f.varOf(f.deref(se.X)) == pathParam || ok && se.High == nil && f.varOf(se.X) == pathParam {
 								// Low = i + len("vendor/") with i := strings.LastIndex(path, "vendor/")
